@@ -183,7 +183,9 @@ def main():
             pf = os.path.join(rdir, h + ".diff")
             with open(pf, "w") as f:
                 f.write(subprocess.run(["git", "-C", REPO, "diff", h, h + "^"], capture_output=True, text=True).stdout)
-            muts.append({"name": "revert-" + h + " " + subj[:60], "patch": pf, "expect": []})
+            expect = {"fd93a06": ["C01"], "90cb8c1": ["C15", "C01"], "da5ab36": ["C19", "C02"], "3e1d585": ["C15", "C06", "C02"],
+                      "896c58c": ["C17", "C06"], "c8c1d74": ["C10"], "b343f1a": ["C17"], "c3fea33": ["C18"], "a74cced": ["C09", "C10"]}.get(h, [])
+            muts.append({"name": "revert-" + h + " " + subj[:60], "patch": pf, "expect": expect})
     results = []
 
     def job(m):
